@@ -29,6 +29,20 @@ CLAIMS = {
              "library silently accepts (invoke-id > 15) are compared with the model but are outside the property.",
         technique="Coq proof (complete kernel enumeration of finite domains + structural lemmas) + translator + exhaustive correspondence",
         design="4/C20"),
+    "C13": dict(
+        text="Coq theorems (axiom-free): on the domain addr_ok (client 0..127 without physical part; server upper "
+             "<= 127 alone; server with both parts, each <= 16383) the model of HdlcAddress writes exactly the "
+             "standard 1/2/4-byte extended form, locating and decoding destination and source in 7E fmt fmt dest "
+             "src tail returns the same logical/physical values and lengths for any tail, the constructed address "
+             "objects are equal to the originals, and the encoding is injective (no attribution to another "
+             "station); out-of-range values are refused. Partial: the statement for all accepted addresses is "
+             "refuted in Coq by the witness of known finding F13a; F13d (client with physical part) is the second "
+             "listed finding. Tie: correspondence exhaustive for single addresses, grid+random for pairs, and on "
+             "address location in well-formed, short and random frames; search through all six real frame kinds.",
+        note="Partial (two known findings excluded from the proved domain, see known_findings.json). Trusted: Coq "
+             "kernel + VM, extraction + driver, Python harness; model follows the fix commit e6b12e3.",
+        technique="Coq proof (14-bit kernel sweeps + structural lemmas) + correspondence + frame-level search",
+        design="4/C13"),
 }
 
 NOT_YET = "not yet built in this stage of the work; see DESIGN.md section 6 (build order)"
